@@ -1,4 +1,5 @@
 import ScrutModel.Lemmas.DiffC03iff
+import ScrutModel.Lemmas.TestRunProps
 /-!
 # C01 — No false pass
 
@@ -10,6 +11,11 @@ Statement: a result without differences yields an assignment `a` of the `m` line
 (`a[j]` = expectation of line `j`): total (no gaps), in order, every line matches its expectation,
 every non-optional expectation receives at least one line, every non-multiline one at most one.
 This file contains only property statements and non-vacuity examples.
+
+The second half (`C01_integrated_…`, `C01_document_…`) states the property about the INTEGRATED
+model of `scrut test` (`Model/TestRun.lean`, tied to the binary by `e2e-testdoc`): the match table is
+no longer abstract, it is `Rule.matches` of the COMPILED expectations of the document's test on the
+lines (`split_at_newline`) of the recorded stream.
 -/
 namespace Scrut.Props.C01
 open Scrut.Diff
@@ -42,5 +48,60 @@ example : diff 2 3 exEs exMt = [.matched 0 [0, 1], .matched 1 [2]] := by
   simp [diff, loop, exEs, exMt, rangeFrom, unmatchedOf, List.range, List.range.loop]
 example : hasDiff (diff 2 3 exEs exMt) = false := by
   simp [diff, loop, exEs, exMt, rangeFrom, unmatchedOf, List.range, List.range.loop, hasDiff]
+
+/-! ## through the composition: `scrut test` on one document (`Model/TestRun.lean`) -/
+
+section Integrated
+open Scrut.TestRun
+
+/-- **C01, integrated**: if the compiled expectations accept a stream (`!diff.has_differences()`),
+there is an assignment `a` of the lines of the stream to the expectations -- `Matched`: every line
+is assigned (no gaps), in order, to an expectation whose RULE matches the line
+(`e.rule.matches l = some true`), every non-optional expectation receives a line, every
+non-multiline one at most one. -/
+theorem C01_integrated_accepts_sound {exps : List CExp} {stream : Bytes}
+    (h : accepts exps stream = some true) :
+    ∃ a, Matched exps (Scrut.Newline.splitAtNewline stream) a :=
+  accepts_sound h
+
+/-- `Matched` spelled out -/
+theorem C01_matched_spelled_out {exps : List CExp} {lines : List Bytes} {a : List Nat}
+    (h : Matched exps lines a) :
+    a.length = lines.length ∧ a.Pairwise (· ≤ ·) ∧
+    (∀ (j i : Nat) (l : Bytes), a[j]? = some i → lines[j]? = some l →
+      ∃ e : CExp, exps[i]? = some e ∧ e.rule.matches l = some true) ∧
+    (∀ (i : Nat) (e : CExp), exps[i]? = some e → e.optional = false → i ∈ a) ∧
+    (∀ (i : Nat) (e : CExp), exps[i]? = some e → e.multiline = false → a.count i ≤ 1) :=
+  ⟨h.total, h.inOrder, h.isMatch, h.atLeast, h.atMost⟩
+
+/-- **C01 + C05, integrated**: behind every `success` that `scrut test` reports for test `i` there
+is such an assignment of the lines of the stream the test selects to the test's expectations (and
+the expected exit code). -/
+theorem C01_integrated_success_matched {tests : List Test} {runs : List Ran}
+    {outcomes : List Scrut.Exec.Outcome} {status i : Nat}
+    (h : runTests tests runs = .report outcomes status)
+    (hi : (i, Scrut.Exec.Verdict.ok) ∈ outcomes) :
+    ∃ (t : Test) (r : Ran) (s : Bytes) (a : List Nat), tests[i]? = some t ∧ runs[i]? = some r ∧
+      r.code = t.expected.getD 0 ∧ selectedStream t r = some s ∧
+      Matched t.exps (Scrut.Newline.splitAtNewline s) a :=
+  runTests_ok_matched h hi
+
+/-- **C01 + C05 from the bytes of the document** -/
+theorem C01_document_success_matched {bytes : Bytes} {runs : List Ran}
+    {outcomes : List Scrut.Exec.Outcome} {status i : Nat}
+    (h : testDocumentBytes bytes runs = .report outcomes status)
+    (hi : (i, Scrut.Exec.Verdict.ok) ∈ outcomes) :
+    ∃ (tests : List Test) (t : Test) (r : Ran) (s : Bytes) (a : List Nat), DocTests bytes tests ∧
+      tests[i]? = some t ∧ runs[i]? = some r ∧ r.code = t.expected.getD 0 ∧
+      selectedStream t r = some s ∧ Matched t.exps (Scrut.Newline.splitAtNewline s) a :=
+  testDocumentBytes_ok_matched h hi
+
+/-! Non-vacuity (kernel evaluation): a glob and an optional `equal` expectation accept `bb\n`; the
+document `exBytes`, whose second test carries these expectations, is reported `success` twice. -/
+example : accepts [⟨.glob ['b', '*'], false, false⟩, ⟨.equal [99], true, false⟩] [98, 98, 10] = some true :=
+  ex_accepts
+example : testDocumentBytes exBytes exRuns = .report [(0, .ok), (1, .ok)] 0 := ex_report
+
+end Integrated
 
 end Scrut.Props.C01
